@@ -79,7 +79,7 @@ HARNESSES = {
     "ffim": dict(c17=["k17_4_tokens_n0", "k17_4_tokens_n1", "k17_4_tokens_n3", "k17_4_ff_out1_n0", "k17_4_ff_out1_n2", "k17_4_ff_out2_n1", "k17_4_ff_out2_n2", "k17_4_ff_out2_n3", "k17_4_mask_v33_d2", "k17_4_mask_v33_d1",
                       "k17_4_mask_v33_d3", "k17_4_mask_v32_d1", "k17_4_mask_v31_d1", "k17_4_status"], c17_fail=["k17_4_witness_must_fail"]),
     "cproto": dict(c18=["p18c_compute_mask", "p18c_after_stop", "p18c_commit"], c18_fail=["cproto_witness_must_fail"]),
-    "tpproto": dict(c12=["p12_rollback_n0_k1", "p12_rollback_n1_k1", "p12_rollback_n0_k2", "p12_rollback_n1_k2", "p12_refuse_n1", "p12_refuse_n2"],
+    "tpproto": dict(c12=["p12_rollback_n0_k1", "p12_rollback_n1_k1", "p12_refuse_n1", "p12_refuse_n2"],
                     c18=["p18_stopped_is_final", "p18_check_stop_exact", "p18_eos_not_accepting", "p18_pending_forced_text_is_not_accepting", "p18_mask_protocol",
                          "p18_out_of_range_token_fails_for_good", "p18_budget"],
                     c01=["p01_commit_accounting"], c13=["p13_prefix_pl1", "p13_prefix_pl2"],
